@@ -11,7 +11,8 @@ PID = "C05"
 RULE = ("bin: 7 operators x 5 operand forms (vector, list, scalar, reflected scalar, reflected list) x 49 dtype pairs over "
         "{bool,int,float,complex,str,date,timedelta}: length 1 exhaustively over the value pools (None included), length 0 "
         "(typed/untyped empties), length 2 with every None pattern on both sides, length 5 (thorough: also 3 and 4) with "
-        "sampled patterns, v op v, and every combination of unequal lengths from {0,1,2,5}; unary -,+,abs likewise; "
+        "sampled patterns, v op v, and every combination of unequal lengths from {0,1,2,5}; unary -,+,abs likewise; long: every operator x "
+        "form x 12 dtype pairs on operands of 256-1200 elements (signed zeros many times over); "
         "bcast: every public method/property of str,int,float,date,bool,complex found by dir() that is not an attribute of "
         "Vector itself, with small argument pools (positional and keyword), on vectors of length 0,1,3 (all None patterns) and "
         "1200; table: table op scalar, scalar op table (reflected), -t/+t/abs(t), table op table over 7 operators with 0-3 columns, 0-3 rows, width and row mismatches. "
@@ -335,10 +336,36 @@ def gen_random(rng, tier):
                        seqkind=rng.choice(["list", "list", "tuple"]))
 
 
+def gen_long(rng, tier):
+    """the same rule at every data size: long operands (a per-value memo, a chunked loop or a size-triggered fast path would
+    show here); the float / complex pools hold equal-but-distinguishable twins (0.0 / -0.0) that then occur many times"""
+    pairs = [("float", "float"), ("float", "int"), ("int", "float"), ("int", "int"), ("complex", "float"), ("bool", "int"),
+             ("str", "str"), ("str", "int"), ("date", "td"), ("date", "int"), ("td", "float"), ("nc", "nc")]
+    for rep in range(1 if tier == "quick" else 6):
+        for op in BINOPS:
+            for form, refl in FORMS:
+                for xt, yt in pairs:
+                    if excluded(op, form, refl, yt):
+                        continue
+                    n = rng.choice([256, 257, 300, 520, 1200])
+                    px = [rng.random() < 0.1 for _ in range(n)]
+                    if form == "scalar":
+                        yield _bin(op, form, refl, xt, yt, G.fill(rng, xt, px), s=rng.randrange(len(POOLS[yt])))
+                    else:
+                        yield _bin(op, form, refl, xt, yt, G.fill(rng, xt, px), G.fill(rng, yt, [rng.random() < 0.1 for _ in range(n)]),
+                                   seqkind=rng.choice(["list", "tuple"]))
+    for rep in range(1 if tier == "quick" else 6):
+        for op in UNOPS:
+            for xt in ("float", "int", "complex", "bool", "td"):
+                n = rng.choice([256, 300, 1200])
+                yield {"fam": "unary", "op": op, "xt": xt, "x": G.fill(rng, xt, [rng.random() < 0.1 for _ in range(n)])}
+
+
 def generate(rng, tier):
     # interleave so that every family is reached early even when the budget is short
-    gens = [gen_bin(rng, tier), gen_unary(rng, tier), gen_bcast(rng, tier), gen_table(rng, tier), gen_random(rng, tier)]
-    weights = [12, 1, 2, 1, 4]
+    gens = [gen_bin(rng, tier), gen_unary(rng, tier), gen_bcast(rng, tier), gen_table(rng, tier), gen_random(rng, tier),
+            gen_long(rng, tier)]
+    weights = [12, 1, 2, 1, 4, 1]
     alive = list(range(len(gens)))
     while alive:
         for gi in list(alive):
